@@ -337,6 +337,54 @@ def message_corruptions(b):
     return out
 
 
+def _ttlv(tag, typ, body, length=None):
+    ln = len(body) if length is None else length
+    return tag.to_bytes(3, 'big') + bytes([typ]) + struct.pack('>I', ln) + body + b'\x00' * ((-len(body)) % 8)
+
+
+def envelope_corruptions(b):
+    """Optional envelope fields of the request header and of the first batch item, present with a body that is not
+    well-formed TTLV, while every enclosing length (batch item / header, message, frame) is consistent: Message
+    Extension at the end of the batch item, Authentication / Batch Error Continuation Option / Time Stamp / Maximum
+    Response Size / Asynchronous Indicator in the header.  Bodies: raw garbage, an inner item that overruns the field, a
+    structure cut in the middle of an inner header, an inner primitive with an impossible length."""
+    bodies = [('garbage', b'\xff' * 16), ('garbage-odd', bytes(range(1, 14))),
+              ('inner-overrun', b'\x42\x00\x7d\x07\x00\x00\x01\x00' + b'abcdefgh'),
+              ('cut-header', _ttlv(0x42007D, 7, b'vendor') + b'\x42\x00\x7d\x07'),
+              ('bad-int', b'\x42\x00\x0d\x02\x00\x00\x00\x03\x00\x00\x00\x00\x00\x00\x00\x00'),
+              ('nested-overrun', _ttlv(0x420063, 1, _ttlv(0x42007D, 7, b'x'), length=64))]
+    kids = [it for it in walk(b) if it[4] == 1]
+    header = [it for it in kids if it[1] == 0x420077]
+    items = [it for it in kids if it[1] == 0x42000F]
+    out = []
+
+    def insert(at, container_off, field):
+        """insert `field` at offset `at` inside the structure at container_off; fix that structure's and the message's length"""
+        m = bytearray(b[:at] + field + b[at:])
+        for off in {container_off, 0}:
+            ln = struct.unpack('>I', m[off + 4:off + 8])[0]
+            m[off + 4:off + 8] = struct.pack('>I', ln + len(field))
+        return bytes(m)
+    if items:
+        off, tag, typ, ln, d = items[0]
+        end = off + 8 + ln
+        for name, body in bodies:
+            out.append(('envelope-extension-' + name, insert(end, off, _ttlv(0x420051, 1, body))))
+    if header:
+        off, tag, typ, ln, d = header[0]
+        fields = [it for it in walk(b) if it[4] == 2 and off < it[0] < off + 8 + ln]
+        count = [it for it in fields if it[1] == 0x42000D]
+        if count:
+            at = count[0][0]
+            for name, body in bodies[:4]:
+                out.append(('envelope-authentication-' + name, insert(at, off, _ttlv(0x42000C, 1, body))))
+            out.append(('envelope-timestamp-len4', insert(at, off, _ttlv(0x420092, 9, b'\x00\x00\x00\x01'))))
+            out.append(('envelope-maxsize-len8', insert(at, off, _ttlv(0x420050, 2, b'\x00' * 8))))
+            out.append(('envelope-async-overrun', insert(at, off, b'\x42\x00\x07\x06\x00\x00\x01\x00' + b'\x00' * 8)))
+            out.append(('envelope-batchoption-garbage', insert(at, off, _ttlv(0x42000E, 5, b'\xff\xff\xff\xff\xff\xff'))))
+    return out
+
+
 BAD_UTF8 = [b'\xff', b'\xfe', b'\x80', b'\xbf', b'\xc3', b'\xc0\xaf', b'\xed\xa0\x80', b'\xf8', b'\xe2\x82', b'\xf4\x90\x80\x80']
 
 
@@ -566,6 +614,19 @@ def oracle_connection(ctx, spec, obs, calls, meta, expect_frames=None):
         ov = primitive_overrun(f['frame'])
         if ov is not None and ov[4] != 'overrun' and not (m.get('kind') or '').split(':')[0] in STRICT_KINDS:
             ov = None
+        if (m.get('kind') or '').startswith('envelope-'):
+            # a valid request plus ONE defined envelope field whose body is broken: every reader has to read that field, so
+            # 'not one well-formed TTLV item' (independent strict parser harness/ttlvparse.py) means 'cannot be decoded'
+            import ttlvparse
+            probs = ttlvparse.check(f['frame'])
+            if probs:
+                ok = (len(env['items']) == 1 and env['items'][0]['status'] == 1
+                      and env['items'][0]['reason'] == sessdrv.REASON_INVALID_MESSAGE)
+                if not ok or f['engine'] is not None or changed:
+                    hit({'kind': 'undecodable-envelope-field-accepted', 'field': m['kind'].split(':')[0]},
+                        'an envelope field with a malformed body (%s), yet the request was %s'
+                        % (probs[0][:120], 'executed' if f['engine'] is not None else 'not answered with INVALID_MESSAGE'),
+                        dict(fx, answer=env, store_changed=changed, engine_entered=f['engine'] is not None))
         uv = version_rule(f['frame'])
         if uv is not None:
             ok = (len(env['items']) == 1 and env['items'][0]['status'] == 1
@@ -659,7 +720,9 @@ def run(ctx):
         '(d) maximum response size in {absent, 0, 1, size-1, size, size+1, 2^31-1, -1} for five operations, plus sequences '
         'mixing small / absent / garbage on one connection (the limit must not outlive its request); (e) requests '
         'the engine refuses as a whole (stale/future time stamp, asynchronous, undo, version 9.9) and injected engine '
-        'behaviours (crash, KmipError with ASCII/non-ASCII/unencodable text, reported maximum, unencodable response); (f) a second '
+        'behaviours (crash, KmipError with ASCII/non-ASCII/unencodable text, reported maximum, unencodable response); (g) long histories on one connection (runs of 33/64/100/257 '
+        'undecodable frames then good ones, 300 good requests, alternating); optional envelope fields (Message Extension, Authentication, '
+        'Time Stamp, ...) with malformed bodies under consistent outer lengths; (f) a second '
         'connection (other thread, same engine) after a connection that sent refused and undecodable requests must be answered. '
         'Distinct = distinct (frame bytes, chunking); every case involves a real parse or a real framing decision.')
     ctx.regen(only=['enums'])
@@ -717,6 +780,11 @@ def run(ctx):
                 and x[1] in (((1, 0), (1, 2), (2, 0)) if quick else kdrv.VERSIONS)]
         msgbad = [(kind + ':' + lab, fr) for lab, v, m, b in msgy for kind, fr in message_corruptions(b)]
         ctx.count('mutation.message-level', len(msgbad))
+        envy = [x for x in valid if (x[0], x[1]) in (('create', (1, 0)), ('create', (1, 2)), ('register_opaque_data', (1, 4)), ('create', (2, 0)),
+                                                      ('batch_create_activate', (1, 2)), ('destroy', (1, 1)))]
+        envbad = [(kind + ':' + lab, fr) for lab, v, m, b in envy for kind, fr in envelope_corruptions(b)]
+        ctx.count('mutation.envelope-field', len(envbad))
+        corrupted = corrupted + envbad
         # the version space: state-changing requests, otherwise valid, announcing a version the server does not support
         vbase = [x for x in valid if (x[0], x[1]) in (('create', (1, 1)), ('create', (1, 2)), ('register_opaque_data', (1, 3)),
                                                       ('batch_create_activate', (1, 4)), ('create', (2, 0)), ('destroy', (1, 0)))]
@@ -872,6 +940,22 @@ def run(ctx):
                          [dict(m, kind='fault:' + f[0]) for f, m in faults] + [{'kind': 'good:get'}], kind='engine-faults')
             px.faults = []
         pool.release(px)
+        # ---------------------------------------------------------------- (g) long histories on one connection
+        # every frame is answered once whatever came before: runs of 33 / 64 / 100 / 257 undecodable frames, then good ones;
+        # a long run of good requests; alternating; more bytes than any plausible per-connection budget
+        px = pool.fresh()
+        junk2 = reframe(b'\x42\x00\x78\x01\x00\x00\x00\x00' + b'\x42\x00\x77\x01\x00\x00\x00\x08' + b'\xee' * 8)
+        histories = [('bad33', [junk2] * 33 + [g0, g0]), ('bad64', [junk2] * 64 + [g0]), ('bad100', [junk2] * 100 + [g0, junk2, g0]),
+                     ('bad257', [junk2] * 257 + [g0]), ('good300', [q()] * 300 + [junk2, g0]),
+                     ('alternate', [junk2, g0] * 80), ('bytes', [bigb] * (4 if quick else 40) + [junk2] * 40 + [g0])]
+        if not quick:
+            histories += [('bad1025', [junk2] * 1025 + [g0]), ('good1100', [q()] * 1100 + [g0])]
+        for name, frames in histories:
+            stream = b''.join(frames)
+            R.connection(px, sessdrv.default_spec(stream, random_chunking(len(stream), rng)),
+                         [{'kind': 'history:' + name}] * len(frames), kind='long-history', expect_frames=frames)
+        pool.release(px)
+
         # ---------------------------------------------------------------- (f) a second connection is served too
         # "serves the next valid request normally" across connections of one engine: connection A (own thread) sends
         # requests that are decodable but refused as a whole (the engine raises inside process_request) or malformed,
